@@ -1,14 +1,24 @@
 #!/bin/bash
-# Development helper: run the baseline suite inside a seed worktree (patch applied) and compare with BASELINE.json
+# Development helper: run the baseline suite inside a seed worktree (patch applied) and compare with BASELINE.json.
+# The OPC-UA tests start servers on fixed ports and hang/fail when another suite runs them at the same time, so that
+# module runs separately under a machine-wide lock (and is retried), the rest of the suite runs without it.
 id=$1; wt=/tmp/wt/$id; out=/tmp/seed/$id
-cd $wt && PYTHONPATH=$wt /venv/bin/python -m pytest -ra -q -p no:cacheprovider --timeout=900 --continue-on-collection-errors --junitxml=$out/suite.xml > $out/suite.log 2>&1
-/venv/bin/python - "$out/suite.xml" > $out/suite_mine.txt <<'PY'
+cd $wt && PYTHONPATH=$wt /venv/bin/python -m pytest -ra -q -p no:cacheprovider --timeout=900 --continue-on-collection-errors \
+  --ignore=openpectus/test/engine/test_opcua_hardware.py --junitxml=$out/suite.xml > $out/suite.log 2>&1
+for try in 1 2 3; do
+  flock /tmp/opcua.lock env PYTHONPATH=$wt /venv/bin/python -m pytest -q -p no:cacheprovider --timeout=300 \
+    openpectus/test/engine/test_opcua_hardware.py --junitxml=$out/suite_opcua.xml > $out/suite_opcua.log 2>&1 && break
+done
+/venv/bin/python - "$out/suite.xml" "$out/suite_opcua.xml" > $out/suite_mine.txt <<'PY'
 import json,sys,xml.etree.ElementTree as ET
 base=set(json.load(open('/root/.vp/BASELINE.json'))['stable_pass'])
 ok=set()
-for tc in ET.parse(sys.argv[1]).iter('testcase'):
-    if not any(c.tag in ('failure','error','skipped') for c in tc):
-        ok.add(f"{tc.get('classname')}::{tc.get('name')}")
+for f in sys.argv[1:]:
+    try: tree=ET.parse(f)
+    except Exception: continue
+    for tc in tree.iter('testcase'):
+        if not any(c.tag in ('failure','error','skipped') for c in tc):
+            ok.add(f"{tc.get('classname')}::{tc.get('name')}")
 missing=sorted(base-ok)
 print("baseline",len(base),"passed-now",len(ok),"baseline tests not passing:",len(missing))
 for m in missing: print("  MISSING",m)
